@@ -50,6 +50,7 @@ namespace
         std::int64_t cnt{0};     // state += cnt on a tick
         std::int64_t wk{0};      // state += wk on a wake
         std::int64_t erun{0};    // emit on every run of the user code, whatever caused it
+        std::int64_t sd{0};      // delay of the timer armed in the start hook (when sos): 0 = the start cycle itself
     };
 
     struct Ctx
@@ -118,7 +119,7 @@ namespace
     void body_start(int slot, NodeScheduler &sched, DateTime now)
     {
         const BodySpec &b = g_ctx->tab[slot];
-        if (b.sos) { sched.schedule(now); }
+        if (b.sos) { sched.schedule(dt(us(now) + b.sd)); }
     }
 
     template <typename OutT>
@@ -381,6 +382,7 @@ namespace
                 b.sos = l[2]; b.etick = l[3]; b.ewake = l[4]; b.rtick = l[5]; b.rwake = l[6]; b.d = l[7];
                 b.c = l[8]; b.m = l[9]; b.l = l[10]; b.acc = l[11]; b.cnt = l[12]; b.wk = l[13];
                 b.erun = l.size() >= 15 ? l[14] : 0;
+                b.sd = l.size() >= 16 ? l[15] : 0;
             }
             else if (l[0] == 6 && l.size() >= 4 && l[1] >= 0 && l[1] <= 2) { ctx.src[l[1]].emplace(l[2], l[3]); }
         }
